@@ -45,12 +45,37 @@ pub type EpochMillis = u64;
 
 /// Get current time as epoch milliseconds.
 fn now_epoch_millis() -> EpochMillis {
+    #[cfg(neumann_verif)]
+    if let Some(t) = verif_clock::get() {
+        return t;
+    }
     #[allow(clippy::cast_possible_truncation)]
     let ms = SystemTime::now()
         .duration_since(UNIX_EPOCH)
         .unwrap_or_default()
         .as_millis() as u64;
     ms
+}
+
+/// Verification-only clock override (compiled only with `--cfg neumann_verif`).
+/// When set, every 2PC time read in this module and in `deadlock.rs` returns the
+/// override instead of the wall clock. With the cfg off nothing changes.
+#[cfg(neumann_verif)]
+pub mod verif_clock {
+    use std::sync::atomic::{AtomicU64, Ordering};
+
+    static CLOCK_MS: AtomicU64 = AtomicU64::new(u64::MAX);
+
+    /// `Some(ms)` freezes the clock at `ms`; `None` restores the wall clock.
+    pub fn set(ms: Option<u64>) {
+        CLOCK_MS.store(ms.unwrap_or(u64::MAX), Ordering::SeqCst);
+    }
+
+    #[must_use]
+    pub fn get() -> Option<u64> {
+        let v = CLOCK_MS.load(Ordering::SeqCst);
+        (v != u64::MAX).then_some(v)
+    }
 }
 
 /// Shard identifier.
@@ -202,6 +227,8 @@ impl DistributedTransaction {
             .duration_since(UNIX_EPOCH)
             .unwrap_or_default()
             .as_millis() as u64;
+        #[cfg(neumann_verif)]
+        let started_at = verif_clock::get().unwrap_or(started_at);
 
         Self {
             tx_id: generate_tx_id(),
@@ -256,6 +283,8 @@ impl DistributedTransaction {
             .duration_since(UNIX_EPOCH)
             .unwrap_or_default()
             .as_millis() as u64;
+        #[cfg(neumann_verif)]
+        let now = verif_clock::get().unwrap_or(now);
         now - self.started_at > self.timeout_ms
     }
 
